@@ -26,13 +26,13 @@ var nameChars = []string{"a", "e", "E", "0", "1", "9", "-", "_", "é", "z", "f",
 func (g *G) Escape() string {
 	switch g.R.Intn(10) {
 	case 0:
-		return `\` + g.pick("41", "65", "45", "30", "2d", "28", "29", "22", "27", "5c", "20", "a", "9", "1", "7f", "e9", "1F600") + g.pick(" ", "", "\n", "\t")
+		return `\` + g.pick("41", "65", "45", "30", "2d", "28", "29", "22", "27", "5c", "20", "a", "9", "1", "7f", "e9", "1F600") + g.pick(" ", "", "\n", "\t", "  ", " \n", "\t ", "\r\n ", " \t ")
 	case 1:
 		return `\` + g.pick("0", "000000", "110000", "D800", "dfff", "10FFFF", "FFFFFF", "0000041", "00004g") + g.pick(" ", "")
 	case 2:
 		return `\` + g.pick("(", ")", `"`, "'", `\`, " ", "-", "!", ";", "{", "}", "/", "*", "é", "g", "G", "\t")
 	case 3:
-		return fmt.Sprintf(`\%x `, g.R.Intn(0x250))
+		return fmt.Sprintf(`\%x `, g.R.Intn(0x250)) + g.pick("", "", " ", "\n", "  ")
 	case 4:
 		return fmt.Sprintf(`\%X`, g.R.Intn(0x30))
 	case 5:
@@ -168,7 +168,7 @@ func (g *G) URL() string {
 			if !g.Clean {
 				b.WriteString(g.pick(`"`, `'`, "(", "\x01", "\x08", "\x0b", "\x0e", "\x1f", "\x7f", "\\\n", " a", "\\\\", `\)`, `\\)`, `\\\)`))
 			} else {
-				b.WriteString(g.pick(`\"`, `\'`, `\(`, `\)`, `\\`, `\ `, `\1 `, `\9 `, `\a `))
+				b.WriteString(g.pick(`\"`, `\'`, `\(`, `\)`, `\\`, `\ `, `\1 `, `\9 `, `\a `, `\1 B`, `\1 f`, `\7f 0`, `\b a1`, `\1f E`, `\2 c`))
 			}
 		case 2:
 			b.WriteString(g.pick("é", "/", "*", "/*", "*/", "!", ";", "{", "}", "[", "#", "@", "%", "-", ".", "+"))
@@ -278,11 +278,14 @@ func (g *G) Declaration() string {
 		colon = g.pick("", "=", " ", "::")
 	}
 	val := g.Value(1, g.R.Range(0, 4))
+	if g.R.P(1, 8) {
+		val = g.pick("/* c */", " /* c */ ", "/**/") + g.pick("{a:b}", "{"+g.Value(0, 2)+"}", val)
+	}
 	imp := ""
 	if g.R.P(1, 3) {
-		imp = g.optWs() + "!" + g.pick("", " ", "/**/") + g.pick("important", "IMPORTANT", "imp\\6Frtant", "importan", "important!") + g.optWs()
-		if g.R.P(1, 6) {
-			imp += g.pick("x", "!important", "{}", "/**/")
+		imp = g.optWs() + "!" + g.pick("", " ", "/**/", " /* x */ ", "/**/ /**/") + g.pick("important", "IMPORTANT", "imp\\6Frtant", "importan", "important!") + g.optWs()
+		if g.R.P(1, 3) {
+			imp += g.pick("x", "!important", "{}", "/**/", "/* why */", " /* why */ ", "/*a*//*b*/", "/* c */;")
 		}
 	}
 	return name + g.optWs() + colon + g.optWs() + val + imp
@@ -373,6 +376,35 @@ func (g *G) Stylesheet(depth, max int) string {
 		b.WriteString(g.optWs())
 	}
 	return b.String()
+}
+
+// Nth returns An+B-like text (css-syntax-3 section 6): valid forms and near misses.
+func (g *G) Nth() string {
+	ws := func() string { return g.pick("", "", " ", "  ", "\n", "/**/", " /**/ ") }
+	sign := func() string { return g.pick("", "", "+", "-") }
+	num := func() string { return g.pick("0", "1", "2", "3", "10", "007", "14", "16777215", "1.0", "1e1") }
+	n := func() string { return g.pick("n", "n", "N", "\\6e ", "n-", "N-", "n-"+num(), "n-"+num(), "nn", "m") }
+	switch g.R.Intn(12) {
+	case 0:
+		return ws() + g.pick("odd", "even", "ODD", "Even", "+odd", "-even", "odd 1", "evenn") + ws()
+	case 1:
+		return ws() + sign() + num() + ws()
+	case 2:
+		return ws() + sign() + ws() + num() + ws()
+	case 3, 4:
+		return ws() + sign() + g.pick(num(), "", "") + n() + ws()
+	case 5, 6, 7:
+		// A n op B with every spacing / sign combination
+		return ws() + sign() + g.pick(num(), "", "") + n() + ws() + sign() + ws() + sign() + num() + ws()
+	case 8:
+		return ws() + sign() + g.pick(num(), "") + n() + ws() + sign() + num() + ws() + g.pick("x", "n", "1", ";", "+")
+	case 9:
+		return ws() + "+" + ws() + n() + ws() + sign() + ws() + num()
+	case 10:
+		return g.Mutate(g.pick("2n+1", "-n- 3", "+n -2", "odd", "3n - 1", "n", "-5"), 1)
+	default:
+		return ws() + sign() + g.pick(num(), "") + n() + ws() + g.pick("+", "-") + ws() + g.pick("+", "-") + num()
+	}
 }
 
 // Mutate applies k rune-level edits (the result stays valid UTF-8).
